@@ -430,9 +430,8 @@ def _ifname_cases():
 
 # ---- caller-controlled strings with printf conversions on the FAILURE branches, debug mode on (wave 8)
 FMT_MARK = "qZ7"
-FMT_CONVS = ["%s", "%s%s%s%s", "%n", "%1$s", "%d", "%999d", "%%", "100%done", "%x%x%x%x%n", "%s%s%n", "%p%p", "%.0s%hhn", "%*d", "%ls", "%c%c",
-             "%", "%5$n", "_"]
-FMT_NIC_CONVS = ["%s", "%s%s%s%s", "%n", "%1$s", "%d", "%999d", "%%", "100%done", "%s%s%n", "_"]
+FMT_CONVS = ["%s", "%s%s%s%s", "%n", "%1$s", "%d", "%999d", "%%", "100%done", "%x%x%x%x%n", "%s%s%n", "%.0s%hhn", "%*d", "%", "%5$n", "_"]
+FMT_NIC_CONVS = ["%s", "%s%s%s%s", "%n", "%1$s", "%d", "%999d", "%%", "100%done", "_"]
 FMT_NIC_EPS = ["net_if_mtu", "net_if_flags", "net_if_is_running", "net_if_duplex_speed"]
 FMT_ALPH = ["%s", "%n", "%d", "%x", "%p", "%ld", "%llu", "%c", "%%", "%5$s", "%*s", "%.9999s", "%hn", "%S", "%f", "%a", "ab", "/", ".", "%"]
 
@@ -449,12 +448,12 @@ def _fmt_cases(rng, tier):
     for conv in FMT_CONVS:
         add("cext.disk_partitions", conv)
         add("psutil.disk_partitions", conv)
-    for conv in FMT_CONVS[:8]:
+    for conv in FMT_CONVS[:8:2]:
         add("cext.disk_partitions", conv, "notdir")
     for ep in FMT_NIC_EPS:
         for conv in FMT_NIC_CONVS:
             add(ep, conv)
-    for _ in range({"quick": 6, "thorough": 150, "search": 10}[tier]):
+    for _ in range({"quick": 4, "thorough": 150, "search": 10}[tier]):
         conv = "".join(rng.choice(FMT_ALPH) for _ in range(rng.randint(1, 8)))
         add(rng.choice(["cext.disk_partitions", "psutil.disk_partitions"] + FMT_NIC_EPS), conv, "missing")
     return out
